@@ -240,7 +240,7 @@ def run(ctx):
             except Exception:
                 continue
             for e in II.events:
-                if e.kind == 'call' and e.data.get('name', '').endswith('.arange') and e.func.short == fi.short and len(e.data['args']) == 3:
+                if e.kind == 'call' and e.data.get('name', '').endswith('.arange') and e.owner == fi.short and len(e.data['args']) == 3:
                     k, bad = kind_of(e.data['args'][2])
                     ctx.ob('EXACTCOUNT', 'np.arange is not stepped by a float', fi, k != 'Real', {'call': e.text(), 'step_kind': k}, node=e.node)
 
